@@ -44,6 +44,7 @@ Ins2(op, a, b) == [op |-> op, a |-> a, b |-> b]
 \* ---- layout family ----------------------------------------------------------------------
 \* registers: 1 A(X)  2 B(Y)  3 float  4 B re-indexed onto A's Arc  5 S(X u Y)  6 A zero-padded onto S's Arc
 \*            7 S2(X u the names in neither X nor Y)  8 A zero-padded onto S2's Arc  9 A with one entry perturbed  10 a zero-derivative number listing Y
+\*            11 the float of 10's value  12 a number of 10's value listing no name  13 = 10 with derivatives -0.0
 \* (6 and 8 are the same number by name but carry different extra names with zero derivative)
 \* A written out on the list S (zero for the names A does not carry) with its LAST highest-order entry moved by 1/32:
 \* equal to A in value and in everything of lower order, different in exactly one derivative
@@ -60,6 +61,11 @@ ZeroOn(kind, Y) ==
   LET n == Len(Y) z == [i \in 1..n |-> FZ] IN
   IF kind = "D1" THEN [t |-> "D1", re |-> FOfRat(11, 8), vars |-> Y, d |-> z]
   ELSE [t |-> "D2", re |-> FOfRat(11, 8), vars |-> Y, d |-> z, d2half |-> [i \in 1..n |-> z]]
+\* the same with every derivative -0.0 (what `1.0 - c`, `-c`, `c * -1.0` leave behind): still a zero derivative
+NegZeroOn(kind, Y) ==
+  LET n == Len(Y) z == [i \in 1..n |-> FNeg(FZ)] IN
+  IF kind = "D1" THEN [t |-> "D1", re |-> FOfRat(11, 8), vars |-> Y, d |-> z]
+  ELSE [t |-> "D2", re |-> FOfRat(11, 8), vars |-> Y, d |-> z, d2half |-> [i \in 1..n |-> z]]
 LayoutProg(kind, X, Y) ==
   LET leaves == << Leaf(kind, 1, FOfRat(7, 4), X), Leaf(kind, 2, FOfRat(5, 4), Y), LeafF(FOfRat(5, 2)),
                    LeafFrom(kind, 2, FOfRat(5, 4), Y, 1), Leaf(kind, 3, FOfRat(9, 8), UnionList(X, Y)),
@@ -67,7 +73,10 @@ LayoutProg(kind, X, Y) ==
                    Leaf(kind, 4, FOfRat(13, 8), UnionList(X, SetToSeq(Names \ (SetOf(X) \cup SetOf(Y))))),
                    LeafFrom(kind, 1, FOfRat(7, 4), X, 7),
                    Perturbed(kind, X, UnionList(X, Y)),
-                   ZeroOn(kind, Y) >>
+                   ZeroOn(kind, Y),
+                   \* 11 the float with 10's value, 12 a number of 10's value that lists NO name, 13 = 10 with -0.0 derivatives:
+                   \* 10 .. 13 are all the same number ("a missing variable and a zero derivative are the same thing")
+                   LeafF(FOfRat(11, 8)), Leaf(kind, 5, FOfRat(11, 8), <<>>), NegZeroOn(kind, Y) >>
       pairs == {<<1, 2>>, <<2, 1>>, <<1, 4>>, <<4, 1>>, <<6, 2>>, <<2, 6>>, <<1, 3>>, <<3, 1>>}
       arith == {Bin(op, p[1], p[2], f) : op \in BinOps, p \in pairs, f \in Forms}
                \cup {Bin(op, p[1], p[2], <<"r", "r">>) : op \in BinOps, p \in {<<6, 8>>, <<8, 6>>, <<8, 2>>, <<2, 8>>}}
@@ -75,6 +84,8 @@ LayoutProg(kind, X, Y) ==
       dd == {<<1, 2>>, <<2, 1>>, <<1, 4>>, <<4, 1>>, <<6, 2>>, <<2, 6>>, <<1, 6>>, <<6, 1>>, <<1, 1>>, <<6, 8>>, <<8, 6>>, <<8, 2>>}
       rel == {Ins2(op, p[1], p[2]) : op \in {"eq", "ne", "vars_cmp", "ptr_eq", "to_new_vars", "union_l", "union_r"}, p \in dd}
              \cup {Ins2(op, p[1], p[2]) : op \in {"eq", "ne"}, p \in {<<1, 3>>, <<3, 1>>}}
+             \cup {Ins2(op, p[1], p[2]) : op \in {"eq", "ne"}, p \in {<<10, 11>>, <<11, 10>>, <<10, 12>>, <<12, 10>>, <<13, 10>>, <<10, 13>>,
+                                                                      <<13, 11>>, <<11, 13>>, <<13, 12>>, <<12, 13>>, <<12, 11>>, <<11, 12>>}}
              \* 9 differs from A in ONE highest-order entry only, on lists aligned (6) and not aligned (1, 8) with its own
              \cup {Ins2(op, p[1], p[2]) : op \in {"eq", "ne"}, p \in {<<1, 9>>, <<9, 1>>, <<6, 9>>, <<9, 6>>, <<8, 9>>, <<9, 8>>}}
   IN [key |-> "layout/" \o kind \o "/" \o ToString(X) \o ToString(Y), leaves |-> leaves, code |-> SetToSeq(arith \cup rel)]
